@@ -84,6 +84,9 @@ type Family struct {
 	MacroEnv bool
 	// OnPath is called for every complete explored state with its path (lasso detection etc.)
 	StateOracle func(scn *Scenario, path []Step, canonPath []string, w *world.World) []engine.Violation
+	// OnReplayStep, if set, is called by ReplayPath with the world reached after each step (replay of
+	// findings of state oracles)
+	OnReplayStep func(i int, w *world.World)
 	// ExtraEnv supplies additional environment events (e.g. a REAL binder reconcile) besides Env.
 	ExtraEnv func(w *world.World) []EnvEvent
 	// Extra runs once in the parent process: additional exhaustive sub-checks of the same property
@@ -478,6 +481,9 @@ func (f *Family) ReplayPath(r *Replay) (*Transition, error) {
 					return nil, err
 				}
 			}
+		}
+		if f.OnReplayStep != nil {
+			f.OnReplayStep(i, w)
 		}
 	}
 	return last, nil
